@@ -1,6 +1,7 @@
 """C01 on games too large for the exact oracle (committed boards): finals exactly 1, states without a path
 to a final exactly 0, values in [0,1], Bellman residual 0 <= F(x) - x <= threshold (+ float slack)."""
 from .. import oracle as O, run as Rn
+from .. import boards
 from ..inputs import board_games
 from ..repo import P1, P2, PR
 
@@ -62,24 +63,46 @@ def judge_board(g, lines):
     return res, out
 
 
-def extend(ctx, rep):
-    limit = 4100 if ctx.thorough else 260
-    games = board_games(limit)
-    n = 0
-    for fname, name, g in games:
-        res, out = judge_board(g, 400 * 10**6)
-        n += 1
-        rep["coverage"]["transitions"] += 2
+def _work(shard):
+    kind, arg, lines = shard
+    out = {"n": 0, "violations": [], "states": 0}
+    if kind == "file":
+        items = [(f, nme, g) for f, nme, g in board_games(None) if (f, nme) == arg]
+        items = [("%s/%s" % (f, nme), {"file": f, "game": nme}, g) for f, nme, g in items]
+    else:
+        d = boards.generate(*arg)
+        items = [("%s %s" % (boards.label(arg), k), {"generated": list(arg[:4]) + [list(arg[4])], "game": k}, d[k]) for k in sorted(d)]
+    for lab, inp, g in items:
+        res, _ = judge_board(g, lines)
+        out["n"] += 1
+        out["states"] += len(g["players"])
         if res:
-            rep["violations"].append({"kind": "board", "klass": res[0], "input": {"file": fname, "game": name},
-                                      "config": {"prune": res[3]}, "observed": repr(res[2]), "expected": None,
-                                      "explanation": "%s/%s: %s at state %s: %r" % (fname, name, res[0], res[1], res[2])})
-    rep["coverage"]["board_games_in_residual_form"] = n
-    rep["coverage"]["traces_validated_against_impl"] += n
+            out["violations"].append({"kind": "board", "klass": res[0], "input": inp, "config": {"prune": res[3]},
+                                      "observed": repr(res[2]), "expected": None,
+                                      "explanation": "%s: %s at state %s: %r" % (lab, res[0], res[1], res[2])})
+    return out
+
+
+def extend(ctx, rep):
+    from .. import par
+    limit = 4100 if ctx.thorough else 260
+    shards = [("file", (f, nme), 400 * 10**6) for f, nme, g in board_games(limit)]
+    shards += [("gen", b, 400 * 10**6) for b in boards.board_list(ctx.thorough, ctx.seed)]
+    tot = par.run_shards(_work, shards, ctx.jobs)
+    rep["violations"].extend(tot.get("violations", []))
+    rep["coverage"]["transitions"] += 2 * tot["n"]
+    rep["coverage"]["board_games_in_residual_form"] = tot["n"]
+    rep["coverage"]["board_states_total"] = tot["states"]
+    rep["coverage"]["traces_validated_against_impl"] += tot["n"]
 
 
 def replay(case):
     inp = case["input"]
+    if "generated" in inp:
+        b = inp["generated"]
+        g = boards.generate(b[0], b[1], b[2], b[3], tuple(b[4]))[inp["game"]]
+        res, _ = judge_board(g, 400 * 10**6)
+        return repr(res) if res else None
     for fname, name, g in board_games(None):
         if fname == inp["file"] and name == inp["game"]:
             res, _ = judge_board(g, 400 * 10**6)
